@@ -617,7 +617,7 @@ func c12JudgeRound(ctx *vfCtx, round c12Round, ri int, db *c12DBStub, stubs []*c
 		if a.Err != "" || len(cands) == 0 {
 			continue
 		}
-		if a.Odd {
+		if a.OddHard {
 			ctx.Class("req/odd-signatures-member(completeness unjudged)")
 			ctx.Unjudged("signatures member with non-string / non-base64 entries: library refuses the whole message")
 			continue
@@ -844,7 +844,7 @@ func c12GenMessage(t *rapid.T, w c12World, server string) ([]byte, string, []str
 		if !inWorld {
 			idx = 13
 		}
-		sk := rapid.SampledFrom([]string{"good", "good", "good", "good", "good", "good", "corrupt", "other-key", "short", "sibling"}).Draw(t, "sigKind")
+		sk := rapid.SampledFrom([]string{"good", "good", "good", "good", "good", "good", "good", "corrupt", "other-key", "short", "sibling", "junk-string", "number"}).Draw(t, "sigKind")
 		if kind == "signature-number" && i == 0 {
 			sk = "number"
 		}
@@ -862,6 +862,8 @@ func c12GenMessage(t *rapid.T, w c12World, server string) ([]byte, string, []str
 			val = jstr(c12B64Enc(c12SignWith(idx, canon)[:63]))
 		case "number":
 			val = jnum(5)
+		case "junk-string":
+			val = jstr(rapid.SampledFrom([]string{"***", "!!not base64!!", "", "AAA=", "A", "é"}).Draw(t, "junk"))
 		}
 		tagBits[sk] = true
 		mine.O = append(mine.O, jkv{id, val})
